@@ -50,6 +50,7 @@ def run(ctx):
     T[n] = fold.need(lambda n=n: fd.module_const(mi, n), n)
   mods = fd.module_const(mi, '_DEGREE_MODIFICATIONS')
   T['_DEGREE_MODIFICATIONS'] = mods
+  grouping_sorted(ctx, mi)
   units(ctx, mi)
   vocab(ctx, mi, T)
   reader_guards(ctx, mi)
@@ -192,7 +193,6 @@ def vocab(ctx, mi, T):
   for n in ast.walk(fn):
     if isinstance(n, ast.BinOp) and isinstance(n.op, ast.Mod) and isinstance(n.left, ast.Constant) and isinstance(n.left.value, str):
       fmts.append(n)
-  ctx.require(len(fmts) >= 3, '_degrees_to_modifications: format strings not found')
   # alteration domain from the degree table (per degree), adjusted by the writer's seventh special case
   alters = {}
   for row in T['_SCALE_DEGREES']:
@@ -200,6 +200,8 @@ def vocab(ctx, mi, T):
       d = parse_degree(name)
       if d:
         alters.setdefault(d[0], set()).add(d[1])
+  compound_boundary(ctx, fi, sorted(alters))
+  ctx.require(len(fmts) >= 3, '_degrees_to_modifications: format strings not found')
   special = seventh_special(fn)
   pat = re.compile('^' + T['_MODIFICATION_PATTERN'] + '$')
   for f in fmts:
@@ -272,6 +274,66 @@ def vocab(ctx, mi, T):
   ok = all(row[0] and row[0][0] in T['_CHORD_KINDS_BY_ABBREV'] for row in T['_CHORD_KINDS'])
   ctx.ob('VOCAB/kind', mi, mi.assigns['_CHORD_KINDS_BY_ABBREV'][0], ok, 'every first abbreviation is a parser key' if ok else 'some kind row\'s first abbreviation is not in _CHORD_KINDS_BY_ABBREV',
          construct='first abbreviations are keys of _CHORD_KINDS_BY_ABBREV')
+
+
+def grouping_sorted(ctx, mi):
+  """Location-independent (expected count on today's tree: 0, the kept patch C15_g is the positive example of the self-test):
+  the kind search must skip every combination in which two scale degrees share a number.  itertools.groupby only merges
+  *adjacent* equal keys, so a duplicate test built on it is complete only over a sorted sequence."""
+  start = mi.functions.get('_largest_chord_kind_from_relative_pitches')
+  if start is None:
+    return
+  seen, todo = {}, [start]
+  while todo:
+    f = todo.pop()
+    if f.qualname in seen:
+      continue
+    seen[f.qualname] = f
+    for c in U.calls_in(f.node):
+      g = mi.functions.get(dotted(c.func) or '')
+      if g is not None:
+        todo.append(g)
+  for f in seen.values():
+    for c in U.calls_in(f.node):
+      if (dotted(c.func) or '').split('.')[-1] != 'groupby' or not c.args:
+        continue
+      src = U.expand_locals(f.node, c.args[0], at=c)
+      while isinstance(src, (ast.GeneratorExp, ast.ListComp)) and len(src.generators) == 1 and not src.generators[0].ifs:
+        # a key computed per element: sortedness must be established on the keys themselves, i.e. outside
+        break
+      ok = isinstance(src, ast.Call) and dotted(src.func) == 'sorted'
+      ctx.ob('DUP/groupby-sorted', f, c, ok, 'the grouped sequence is sorted' if ok else
+             'itertools.groupby over %s, which is not sorted: equal degree numbers that are not adjacent (e.g. 9 .. 3 .. #9) are not recognised as duplicates, so the '
+             'kind search can accept a degree reading in which one degree occurs twice' % norm_text(c.args[0]), construct='duplicate degree test', definite=True)
+
+
+def compound_boundary(ctx, fi, D):
+  """Location-independent: the writer drops the 'add' prefix for altered *compound* degrees only (9, 11, 13): the reader takes
+  "(b7)" as an alteration of a seventh that is present and "(addb7)" as an added one.  Whatever way the writer compares a degree
+  number with a constant, the comparison must split the degree numbers of _SCALE_DEGREES exactly into {<= 7} and {> 7}."""
+  fn = fi.node
+  want = frozenset(d for d in D if d > 7)
+  for c in ast.walk(fn):
+    if not (isinstance(c, ast.Compare) and len(c.ops) == 1 and isinstance(c.ops[0], (ast.Lt, ast.LtE))):
+      continue
+    l, r = c.left, c.comparators[0]
+    kl, kr = U.const_value(l), U.const_value(r)
+    strict = isinstance(c.ops[0], ast.Lt)
+    if isinstance(kl, int) and not isinstance(kl, bool) and isinstance(r, ast.Name):
+      big = frozenset(d for d in D if (kl < d if strict else kl <= d))
+    elif isinstance(kr, int) and not isinstance(kr, bool) and isinstance(l, ast.Name):
+      big = frozenset(d for d in D if (d < kr if strict else d <= kr))
+    else:
+      continue
+    name = (r if isinstance(r, ast.Name) else l).id
+    # only comparisons of a degree number: the variable iterates over / indexes a degree dictionary
+    if not any(isinstance(n, ast.For) and isinstance(n.target, ast.Name) and n.target.id == name for n in ast.walk(fn)):
+      continue
+    ok = big == want or big == frozenset(D) - want
+    ctx.ob('VOCAB/compound-boundary', fi, c, ok, 'the degree comparison separates the compound degrees %s from the simple ones' % sorted(want) if ok else
+           '%s separates the degrees %s from %s; the reader needs the add prefix dropped for exactly the altered compound degrees %s (an altered added seventh written '
+           'without "add" is read back as an alteration)' % (norm_text(c), sorted(big), sorted(set(D) - big), sorted(want)),
+           construct='boundary between simple and compound degrees', definite=True)
 
 
 def VOCAB_DEPS(ctx):
